@@ -342,6 +342,39 @@ pub fn run_check(replay: Option<Value>) -> i32 {
             }
         }
         out.tag("scaling-checked");
+        // (b') the same with the differenced default Jacobian (implicit methods): "to rounding" - the increments are
+        // not scale-invariant, so the Jacobians differ in their last digits; the run must still be the scaled image up
+        // to a few steps and a small multiple of the tolerance
+        if crate::run::is_implicit(m) {
+            let mut cf = c.clone();
+            cf.user_jac = false;
+            let rb = run(&p, &cf);
+            out.events += rb.st.n_ode;
+            if let Some(sbf) = rb.sol().filter(|s| s.status == Status::Success) {
+                for k in [-600i32, -60, 60, 600] {
+                    let f = 2f64.powi(k);
+                    let mut cs = cf.clone();
+                    cs.y0 = cf.y0.iter().map(|v| v * f).collect();
+                    cs.atol = Tol::S(tol * 1e-2 * f);
+                    let r = run(&p, &cs);
+                    out.events += r.st.n_ode;
+                    match r.sol() {
+                        Some(s) if s.status == Status::Success => {
+                            let (na, nb) = (s.naccpt as f64, sbf.naccpt as f64);
+                            let (ya, yb) = (s.y.last().unwrap(), sbf.y.last().unwrap());
+                            let scale = yb.iter().fold(0.0f64, |a, v| a.max(v.abs())).max(1e-300);
+                            let dev = ya.iter().zip(yb).fold(0.0f64, |a, (u, v)| a.max((u / f - v).abs())) / scale;
+                            if (na - nb).abs() > 0.15 * nb + 3.0 || dev > 50.0 * tol {
+                                viol!("scaling-fd", format!("with the differenced Jacobian, scaling state and atol by 2^{} changes the run beyond rounding: {} vs {} accepted steps, final states differ by {:e} (relative to the state; tolerance {:e})", k, s.naccpt, sbf.naccpt, dev, tol), "scaling");
+                            }
+                            out.validated += 1;
+                            out.tag("scaling-fd-checked");
+                        }
+                        _ => viol!("scaling-fd", format!("with the differenced Jacobian the run scaled by 2^{} ended with {} (unscaled: Success)", k, r.outcome_name()), "scaling"),
+                    }
+                }
+            }
+        }
         // (c) scalar tolerance written as a constant vector
         if p.n >= 2 {
             let mut cv = c.clone();
